@@ -11,7 +11,7 @@ KINDS = [('unit', []), ('tuple', ['u8']), ('tuple', ['String', 'i32']), ('tuple'
 NAMINGS = [((), False), ((), True), (('M',), False), (('S', 'L'), False), (('L', 'S'), False),
            (('S', 'M', 'L'), False), (('S', 'L', 'M'), False), (('M', 'S', 'L'), False), (('M', 'L', 'S'), False),
            (('L', 'S', 'M'), False), (('L', 'M', 'S'), False), (('M',), True), (('L', 'S'), True),
-           (('U', 'A'), False), (('A', 'U'), False)]
+           (('U', 'A'), False), (('A', 'U'), False), (('B',), False), (('S', 'B'), False)]
 # out-of-quantifier probes (ties in length): last one wins in the implementation and in the model
 TIE_NAMINGS = [(('M', 'N'), False), (('N', 'M'), False), (('M', 'N', 'S'), False)]
 
@@ -27,6 +27,7 @@ def lit(cls, ident, k):
         'L': 'long name of %s !' % base,
         'U': 'éé%d' % (k % 10),        # 5 bytes, 3 chars
         'A': 'ab%d%d' % (k % 10, k % 7),  # 4 bytes, 4 chars: fewer bytes than U although more chars
+        'B': '{{esc %s}} }}{{' % base,    # escaped braces only: a fixed name, printed verbatim by every derive
     }[cls]
 
 
